@@ -211,6 +211,29 @@ class _ExprNorm(ast.NodeTransformer):
                 return split(0)
         return node
 
+    def visit_Compare(self, node):
+        self.generic_visit(node)
+        # len(list(filter(lambda v: P(v), IT))) > 0  /  len([v for v in IT if P(v)]) > 0   ->   any(P(v) for v in IT)
+        if len(node.ops) == 1 and isinstance(node.ops[0], (ast.Gt, ast.NotEq)) and isinstance(node.comparators[0], ast.Constant) and node.comparators[0].value == 0 \
+                and isinstance(node.left, ast.Call) and isinstance(node.left.func, ast.Name) and node.left.func.id == "len" and len(node.left.args) == 1:
+            inner = node.left.args[0]
+            if isinstance(inner, ast.Call) and isinstance(inner.func, ast.Name) and inner.func.id in ("list", "tuple") and len(inner.args) == 1:
+                inner = inner.args[0]
+            elif isinstance(inner, ast.List) and len(inner.elts) == 1 and isinstance(inner.elts[0], ast.Starred):
+                inner = inner.elts[0].value           # [*X] produced by the sequence canonicalisation
+            gen = None
+            if isinstance(inner, ast.Call) and isinstance(inner.func, ast.Name) and inner.func.id == "filter" and len(inner.args) == 2 \
+                    and isinstance(inner.args[0], ast.Lambda) and len(inner.args[0].args.args) == 1:
+                lam = inner.args[0]
+                gen = ast.GeneratorExp(elt=lam.body, generators=[ast.comprehension(target=ast.Name(id=lam.args.args[0].arg, ctx=ast.Store()),
+                                                                                     iter=inner.args[1], ifs=[], is_async=0)])
+            elif isinstance(inner, (ast.ListComp, ast.GeneratorExp)) and len(inner.generators) == 1 and len(inner.generators[0].ifs) == 1:
+                g = inner.generators[0]
+                gen = ast.GeneratorExp(elt=g.ifs[0], generators=[ast.comprehension(target=g.target, iter=g.iter, ifs=[], is_async=0)])
+            if gen is not None:
+                return ast.copy_location(ast.Call(func=ast.Name(id="any", ctx=ast.Load()), args=[gen], keywords=[]), node)
+        return node
+
     def visit_Set(self, node):
         self.generic_visit(node)
         if all(isinstance(e, ast.Constant) for e in node.elts):
